@@ -148,6 +148,24 @@ let run (cmd : string) (a : v) : v =
       L [ vlist (fun (p, id) -> L [vpath p; vnat id]) (named_modules g r);
           vlist (fun ((p, id), k) -> L [vpath p; vnat id; S (match k with KLinear -> "linear" | KConv -> "conv")]) (register g sn sc r);
           L (List.mapi (fun i _ -> let (a, b) = hooks g sn sc r (nat_of_int i) in L [vnat a; vnat b]) nodes) ]
+  | "neox_view", L [I p; I d; I m; L invs] ->
+      let ((ad, am), ap), per = neox_view (nat_of_int p) (nat_of_int d) (nat_of_int m) (List.map (fun x -> nat_of_int (geti x)) invs) in
+      let vll = vlist (vlist vnat) in
+      L [ vll ad; vll am; vll ap;
+          vlist (fun ((((dp, mp), sp), (kind, trace)), qs) ->
+            L [ vlist vnat dp; vlist vnat mp; vlist vnat sp; vnat kind; vll trace;
+                vlist (fun ((fw, src), gw) -> L [vnat fw; vnat src; vbool gw]) qs ]) per ]
+  | "neox_trace_old", L [I d; I m; I r] -> vlist (vlist vnat) (newgroup_trace_old (nat_of_int d) (nat_of_int m) (nat_of_int r))
+  | ("neox_greedy" | "neox_ok_b"), L (L peers :: L names :: L work :: rest) ->
+      let work = List.map (fun l -> List.map (function L [I f; I c] -> (nat_of_int f, z_of_int c) | _ -> failwith "factor") (getl l)) work in
+      let peers = List.map (fun x -> nat_of_int (geti x)) peers and names = List.map (fun x -> nat_of_int (geti x)) names in
+      (match cmd, rest with
+       | "neox_greedy", [] -> vlist (fun (l, fl) -> L [vnat l; vlist (fun (f, w) -> L [vnat f; vnat w]) fl]) (neox_greedy peers names work)
+       | "neox_ok_b", [a] ->
+           let asg = List.map (function L [I l; L fl] ->
+             (nat_of_int l, List.map (function L [I f; I w] -> (nat_of_int f, nat_of_int w) | _ -> failwith "asg") fl) | _ -> failwith "asg") (getl a) in
+           vbool (neox_ok_b peers names work asg)
+       | _ -> failwith "neox args")
   | _ -> failwith ("unknown command or bad argument: " ^ cmd)
 
 let () =
